@@ -624,6 +624,11 @@ def verify_function(repo, con, schema, lib, registry=None, engine_cls=VEngine, n
             # exception raised by an unknown callable: propagates as is; allowed iff contract says so
             if con.only_raises_ is not None and '<opaque>' not in con.only_raises_:
                 ctx.oblige('exc', 'only_raises:<exception of a user callback>', z3.BoolVal(False), {'line': exc.line})
+            # clauses about when a foreign exception can come out at all (exported to callers as exc class '<opaque>')
+            for name, ecls, fn, props in con.exc_ensures_:
+                if ecls == '<opaque>':
+                    ctx.oblige('exc', name, fn(env), {'line': exc.line})
+            check_frame(it, con, 'exc')
             return
         if con.only_raises_ is not None:
             ok = any(eng.exc_isinstance(exc.cls, a) for a in con.only_raises_)
